@@ -1,13 +1,13 @@
 package main
 
 import (
-	"sort"
 	"fmt"
 	"go/ast"
 	"go/constant"
 	"go/token"
 	"go/types"
 	"math/big"
+	"sort"
 	"strconv"
 	"strings"
 
@@ -213,6 +213,19 @@ func (ev *Env) ident(name string) Val {
 		return boolV(name)
 	case "nil":
 		return Val{Nil: true}
+	}
+	if ev.loopH != nil && ev.frame != nil {
+		// inside a loop invariant a parameter that the loop reassigns denotes its current value (the entry
+		// value is available through a view)
+		if _, isParam := ev.frame.params[name]; isParam {
+			for _, in := range ev.loopH.Instrs {
+				if p, ok := in.(*ssa.Phi); ok && p.Comment == name {
+					if v, ok := ev.frame.lookupLocal(name, ev.loopH); ok {
+						return v
+					}
+				}
+			}
+		}
 	}
 	if v, ok := ev.vars[name]; ok {
 		return v
